@@ -42,6 +42,7 @@ type c08World struct {
 	wholes  []string // dictionary of wholeRefs (token = index+1); the last one is of no file
 	vals    map[string]int
 	allVals []string // every attribute value present in the world
+	ticks   int      // claims are dated base+1s .. base+ticks s
 	iw      *ixWorld
 }
 
@@ -197,6 +198,20 @@ func buildC08World(c *ctx, w *world) *c08World {
 			p.hidden = true
 		}
 		if c.rng.Intn(3) == 0 {
+			// the same value added twice (or three times), removed by a del claim naming it, other claims afterwards: what
+			// the attribute held in between is only visible to queries "as of" that time
+			claim(0, "add", "tag", "w")
+			claim(0, "add", "tag", "w")
+			if c.rng.Intn(2) == 0 {
+				claim(0, "add", "tag", []string{"w", "v"}[c.rng.Intn(2)])
+			}
+			claim(0, "del", "tag", "w")
+			if c.rng.Intn(2) == 0 {
+				claim(0, "add", "tag", "v")
+			}
+			claim(0, "set", "title", fmt.Sprintf("Title %d", i%3))
+		}
+		if c.rng.Intn(3) == 0 {
 			claim(0, "set", "rating", []string{"1", "2", "3", "5", "n/a", "04"}[c.rng.Intn(6)])
 			if c.rng.Intn(3) == 0 {
 				claim(0, "add", "rating", []string{"2", "4", "x"}[c.rng.Intn(3)])
@@ -296,7 +311,11 @@ func buildC08World(c *ctx, w *world) *c08World {
 	default:
 		k := 1 + c.rng.Intn(len(fileRefs)-1)
 		sub := mkdir("sub", fileRefs[:k])
-		dir := mkdir("dir", append(append([]blob.Ref(nil), fileRefs[k:]...), sub.ref))
+		members := append(append([]blob.Ref(nil), fileRefs[k:]...), sub.ref)
+		if c.rng.Intn(2) == 0 {
+			members = append(members, mkdir("empty", nil).ref) // a directory without entries
+		}
+		dir := mkdir("dir", members)
 		if c.rng.Intn(2) == 0 {
 			mkdir("top", []blob.Ref{dir.ref})
 		}
@@ -341,6 +360,7 @@ func buildC08World(c *ctx, w *world) *c08World {
 		cw.wholes = append(cw.wholes, blob.RefFromString(s).String())
 	}
 	cw.wholes = append(cw.wholes, blob.RefFromString("no such file").String())
+	cw.ticks = tick
 	return cw
 }
 
@@ -922,7 +942,7 @@ func runC08(c *ctx) {
 		for _, b := range cw.blobs {
 			byRef[b.ref] = b
 		}
-		for qi := 0; qi < c.n(130, 220); qi++ {
+		for qi := 0; qi < c.n(170, 260); qi++ {
 			q := genQC(c, cw, 1+c.rng.Intn(3))
 			nt := func(v string) *qc { return &qc{perm: true, attr: "camliNodeType", val: v} }
 			shapes := []*qc{
@@ -963,6 +983,39 @@ func runC08(c *ctx) {
 				&qc{perm: true, attr: "tag", val: "x", valAll: true},
 				&qc{perm: true, attr: "rating", vmInt: &[2]int{2, 4}},
 				&qc{perm: true, attr: "camliMember", inSet: &qc{perm: true, attr: "tag", val: "x"}})
+			// attribute values as of earlier times, across the world's whole history
+			for k := 0; k < 6; k++ {
+				at := time.Unix(1400000000, 0).UTC().Add(time.Duration((k+1)*cw.ticks/7)*time.Second + 500*time.Millisecond)
+				shapes = append(shapes,
+					&qc{perm: true, attr: "tag", val: []string{"w", "v", "x"}[k%3], at: at},
+					&qc{perm: true, attr: "tag", numValMin: 1 + k%3, at: at},
+					&qc{perm: true, attr: "tag", val: "w", valAll: true, at: at})
+			}
+			// an empty directory and the counts; several parentDir / contains constraints in one search
+			dn := func(n string) *dqc { return &dqc{name: n} }
+			shapes = append(shapes,
+				&qc{dir: &dqc{top: &[2]int{1, 0}}},
+				&qc{dir: &dqc{contains: &qc{dir: &dqc{top: &[2]int{1, 0}}}}},
+				&qc{dir: &dqc{name: "e"}},
+				&qc{op: "or", a: &qc{fParent: dn("sub")}, b: &qc{fParent: dn("dir")}},
+				&qc{op: "xor", a: &qc{fParent: dn("dir")}, b: &qc{fParent: dn("sub")}},
+				&qc{op: "and", a: &qc{fParent: dn("d")}, b: &qc{op: "not", a: &qc{fParent: dn("sub")}}},
+				&qc{op: "or", a: &qc{dir: &dqc{parent: dn("top")}}, b: &qc{dir: &dqc{parent: dn("dir")}}},
+				&qc{op: "or", a: &qc{dir: &dqc{contains: fn("f0")}}, b: &qc{dir: &dqc{contains: fn("f1")}}},
+				&qc{op: "xor", a: &qc{dir: &dqc{rcontains: fn("f0")}}, b: &qc{dir: &dqc{rcontains: fn("f1")}}})
+			// several value-in-set sub-queries in one search, about the same blobs (per-search scratch state must not leak from
+			// one sub-query to the other)
+			ins := func(attr string, sub *qc) *qc { return &qc{perm: true, attr: attr, inSet: sub} }
+			tagq := func(v string) *qc { return &qc{perm: true, attr: "tag", val: v} }
+			for _, op := range []string{"or", "and", "xor"} {
+				shapes = append(shapes,
+					&qc{op: op, a: ins("camliMember", tagq("x")), b: ins("camliMember", tagq("y"))},
+					&qc{op: op, a: ins("camliMember", tagq("y")), b: ins("camliMember", &qc{op: "not", a: tagq("y")})},
+					&qc{op: op, a: ins("camliPath:a", &qc{camli: "permanode"}), b: ins("camliMember", tagq("z"))})
+			}
+			shapes = append(shapes,
+				&qc{op: "and", a: ins("camliMember", &qc{camli: "permanode"}), b: &qc{op: "not", a: ins("camliMember", tagq("x"))}},
+				ins("camliMember", ins("camliMember", tagq("x"))))
 			if q.String() != "" && strings.Contains(q.String(), "relation{") {
 				c.count("relation constraints", "random")
 			}
